@@ -401,13 +401,22 @@ func c14Pick(r *rand.Rand, alphabet string, lo, hi int) string {
 func c14URL(r *rand.Rand, idx int) string {
 	hosts := []string{"goku", "goku:9090", "user:password@goku:9090", "127.0.0.1:8080", "[::1]:8443", ":6060", "foo.example.org", "a-b.c_d.test", "xn--bcher-kva.example", "h"}
 	var sb strings.Builder
-	if r.Intn(3) == 0 {
+	switch r.Intn(12) {
+	case 0, 1, 2, 3:
 		sb.WriteString("https://")
-	} else {
+	case 4:
+		sb.WriteString("HTTP://") // the targeter hands the URL on as written: no normalisation of any kind
+	case 5:
+		sb.WriteString("Https://")
+	default:
 		sb.WriteString("http://")
 	}
 	sb.WriteString(hosts[r.Intn(len(hosts))])
 	fmt.Fprintf(&sb, "/t%d", idx)
+	if r.Intn(5) == 0 {
+		// characters a URL printer would escape, re-order or drop
+		sb.WriteString("/" + []string{"a|b", "[x]", "{id}", "ü✓", "q^r", "a`b", "x<y>", "a\"b", "dot/./seg", "up/../seg", "dbl//slash", "semi;v=1"}[r.Intn(12)])
+	}
 	for i, n := 0, r.Intn(4); i < n; i++ {
 		sb.WriteString("/" + c14Pick(r, "abcdefXYZ0123456789-._~!*'()+,;=:@", 0, 8))
 		if r.Intn(6) == 0 {
@@ -420,8 +429,14 @@ func c14URL(r *rand.Rand, idx int) string {
 			sb.WriteString("&item=ball&q=" + c14Pick(r, "abc:/?@", 0, 6))
 		}
 	}
+	switch r.Intn(12) {
+	case 0:
+		sb.WriteString("#frag")
+	case 1:
+		sb.WriteString("?")
+	}
 	u := sb.String()
-	if !c14URLOK(u) {
+	if _, err := url.ParseRequestURI(u); err != nil || !c14URLOK(u) { // generator guard only
 		u = fmt.Sprintf("http://goku:9090/t%d", idx)
 	}
 	return u
